@@ -218,7 +218,7 @@ func (g *Gen) typ(depth int) {
 			g.typeAnnotation(depth - 1)
 		}
 		g.e(")")
-		if g.p(0.8) {
+		if g.p(0.95) {
 			g.e(":")
 			g.typeAnnotation(depth - 1)
 		} else {
@@ -591,6 +591,10 @@ func (g *Gen) atom(depth int) {
 	k := g.n(28)
 	if depth <= 0 && k >= 14 {
 		k = g.n(14)
+	}
+	if (k == 17 || k == 21) && !g.p(0.3) {
+		// destroy/attach expressions in operand position hit known printer defects; keep them, but rarer
+		k = g.n(4)
 	}
 	switch k {
 	case 0, 1, 2, 3:
